@@ -25,6 +25,25 @@ READERS = [("file_preamble.cpp", "StorageHints", "StorageHints::read"), ("file_p
            ("block.cpp", "MalformedMessage", "MalformedMessage::read"),
            ("block.cpp", "BlockTables", "CdnsBlockRead::read_blocktables"), ("block.cpp", "Block", "CdnsBlockRead::read")]
 APPENDERS = {"push_back", "emplace_back", "add_value"}
+DEC_CALLS = {"read_unsigned": "u", "read_integer": "i", "read_bool": "bool", "read_textstring": "text", "read_bytestring": "bytes"}
+
+def value_kind(stmts):
+    """how the value of a key is read: u / i / bool / text / bytes (the CdnsDecoder call), struct (some object's read(dec) - a nested
+    structure, a Timestamp, an index list - or a member function given the decoder), array:<kind of the elements> (dec.read_array(...))"""
+    calls = []
+    for st in stmts:
+        for x in walk(st):
+            if x.get("kind") == "CXXMemberCallExpr":
+                nm, me = callee_name(x)
+                if nm in DEC_CALLS: calls.append(DEC_CALLS[nm])
+                elif nm == "read_array": calls.append("array")
+                elif nm in ("read", "read_blocktables"): calls.append("struct")
+    if not calls: return "?"
+    if "array" in calls:
+        rest = [c for c in calls if c != "array"]
+        return "array:" + (rest[0] if rest else "?")
+    return calls[0]
+
 
 def walk(n):
     yield n
@@ -86,11 +105,22 @@ def analyse(src, fname, struct, qual, delegates):
     switches = [x for x in walk(body) if x.get("kind") == "SwitchStmt"]
     if len(switches) != 1: raise RuntimeError("%s: expected one switch, found %d" % (qual, len(switches)))
     # the mandatory check: the last top-level 'if' whose branch throws
-    mand_flags, nonempty_members = set(), set()
+    mand_flags, nonempty_members, plain_or = set(), set(), True
     for st in top:
         if st.get("kind") == "IfStmt" and any(x.get("kind") == "CXXThrowExpr" for x in walk(st["inner"][-1])) and \
            any(x.get("kind") == "DeclRefExpr" and x.get("referencedDecl", {}).get("name", "").startswith("is_") for x in walk(st["inner"][0])):
             cond = st["inner"][0]
+            # the check must be a plain disjunction: '!is_a || !is_b || ... [|| member.size() == 0]' - any other connective (a '&&', a
+            # flag that is not negated) lets a structure with a missing member through
+            def disj(c):
+                k = c.get("kind")
+                if k in ("ParenExpr", "ImplicitCastExpr", "ExprWithCleanups"): return disj(c["inner"][0])
+                if k == "BinaryOperator" and c.get("opcode") == "||": return disj(c["inner"][0]) and disj(c["inner"][1])
+                if k == "UnaryOperator" and c.get("opcode") == "!": return any(y.get("kind") == "DeclRefExpr" and y.get("referencedDecl", {}).get("name", "").startswith("is_") for y in walk(c))
+                if k == "BinaryOperator" and c.get("opcode") == "==": return any(y.get("kind") == "CXXMemberCallExpr" for y in walk(c))
+                if k == "CXXMemberCallExpr": return callee_name(c)[0] == "empty"
+                return False
+            if not disj(cond): plain_or = False
             for x in walk(cond):
                 if x.get("kind") == "DeclRefExpr" and x.get("referencedDecl", {}).get("kind") == "VarDecl": mand_flags.add(x["referencedDecl"]["name"])
                 if x.get("kind") == "CXXMemberCallExpr":
@@ -121,10 +151,81 @@ def analyse(src, fname, struct, qual, delegates):
                     if nm in APPENDERS: appends = True
                     if nm in delegates and me is not None and on_this(me) and delegates[nm]: appends = True
                 if k == "MemberExpr" and x.get("name") and x.get("inner") and x["inner"][0].get("kind") == "CXXThisExpr": members.add(x["name"])
+        kind = value_kind(stmts)
         for key, nm in zip(keys, names):
             if key is None: continue
-            rows.append((key, nm, bool(flags & mand_flags), bool(members & nonempty_members), appends and not clears and not fresh))
-    return struct, resets, rows
+            rows.append((key, nm, bool(flags & mand_flags), bool(members & nonempty_members), appends and not clears and not fresh, kind))
+    return struct, resets, rows, plain_or
+
+# ---------------------------------------------------------------------------------------------- the write() methods
+WRITERS = [(f, st, q.replace("::read", "::write")) for f, st, q in READERS if st not in ("BlockTables", "Block")] + \
+          [("block.cpp", "BlockTables", "CdnsBlock::write_blocktables"), ("block.cpp", "Block", "CdnsBlock::write")]
+
+def arg_kind(call):
+    """kind of the value an enc.write(x) call writes, from the static type of x"""
+    args = call.get("inner", [])[1:]
+    if not args: return "?"
+    ty = args[0].get("type", {}).get("qualType", "")
+    ty = ty.replace("const ", "").replace("CDNS::", "").strip()
+    if ty == "bool": return "bool"
+    if ty in ("int64_t", "long", "long long", "int8_t", "signed char"): return "i" if ty in ("int64_t", "long", "long long") else "key"
+    return "u"
+
+def analyse_writer(src, fname, struct, qual):
+    """[(key, guard, kind)] in the order the code writes them: guard = always | opt (written iff the boost::optional holds a value) |
+    nonempty (written iff the vector is not empty)"""
+    body = method_body(os.path.join(src, fname), qual)
+    rows = []
+    def guard_of(cond):
+        names = [callee_name(x)[0] for x in walk(cond) if x.get("kind") == "CXXMemberCallExpr"]
+        if "size" in names or "empty" in names: return "nonempty"
+        return "opt"
+    def visit(n, guard):
+        k = n.get("kind")
+        if k == "IfStmt":
+            inner = n.get("inner", [])
+            g = guard_of(inner[0])
+            visit(inner[0], guard)
+            for c in inner[1:2]: visit(c, g if guard == "always" else guard)
+            for c in inner[2:]: visit(c, guard)
+            return
+        if k == "LambdaExpr": return
+        if k == "CallExpr":
+            f = n.get("inner", [{}])[0]
+            if any(x.get("kind") == "DeclRefExpr" and x.get("referencedDecl", {}).get("name") == "get_map_index" for x in walk(f)):
+                ec = next((x for x in walk(n) if x.get("kind") == "DeclRefExpr" and x.get("referencedDecl", {}).get("kind") == "EnumConstantDecl"), None)
+                if ec is None:
+                    if rows: rows[-1][2].append("u")           # get_map_index(value): an enumeration VALUE written as its integer
+                    return
+                nm = ec["referencedDecl"]["name"]
+                en = ec.get("type", {}).get("qualType", "").replace("CDNS::", "")
+                rows.append([nm, guard, [], en]); return
+        if k == "CXXMemberCallExpr":
+            nm, me = callee_name(n)
+            if nm == "write_map_start": return                        # (its argument may be get_map_index(<X>_size): a member count, not a key)
+            if nm == "write_array_start":
+                if rows: rows[-1][2].append("array")
+                return
+            for c in n.get("inner", [])[1:]: visit(c, guard)          # arguments first (the key is an argument of enc.write)
+            key_call = any(x.get("kind") == "DeclRefExpr" and x.get("referencedDecl", {}).get("name") == "get_map_index" for x in walk(n))
+            if rows and not key_call:
+                if nm == "write_textstring": rows[-1][2].append("text")
+                elif nm == "write_bytestring": rows[-1][2].append("bytes")
+                elif nm in ("write", "write_blocktables"):
+                    obj = me.get("inner", [{}])[0] if me else {}
+                    is_enc = any(x.get("kind") == "DeclRefExpr" and x.get("referencedDecl", {}).get("name") == "enc" for x in walk(obj)) and not any(x.get("kind") == "MemberExpr" for x in walk(obj))
+                    oty = obj.get("type", {}).get("qualType", "")
+                    rows[-1][2].append(arg_kind(n) if is_enc else "bytes" if "StringItem" in oty else "struct")
+            return
+        for c in n.get("inner", []): visit(c, guard)
+    visit(body, "always")
+    out = []
+    for nm, guard, calls, en in rows:
+        if not calls: kind = "?"
+        elif calls[0] == "array": kind = "array:" + (calls[1] if len(calls) > 1 else "?")
+        else: kind = calls[0]
+        out.append((nm, en, guard, kind))
+    return struct, out
 
 def source_digest(src):
     h = hashlib.sha256()
@@ -148,13 +249,24 @@ def generate(src, out_path):
     b = lambda x: "true" if x else "false"
     t = "(* Gen_readers.v - GENERATED by translator/readers.py from the read() methods of /repo/src/block.cpp and file_preamble.cpp (clang AST). Do not edit.\n   inputs sha256 " + dig + " *)\n"
     t += "Require Import String List ZArith. Import ListNotations. Open Scope string_scope.\n"
-    t += "(* (structure, (read() resets the object first, [(key, (mandatory on reading, must be a non-empty vector, a repeated key accumulates))])) *)\n"
-    t += "Definition gen_readers : list (string * (bool * list (Z * (bool * bool * bool)))) := [\n"
-    t += ";\n".join('  ("%s", (%s, [%s]))' % (n, b(rs), "; ".join("((%d)%%Z, (%s, %s, %s))" % (k, b(m), b(ne), b(ac)) for k, _, m, ne, ac in rows)) for n, rs, rows in res)
+    t += "(* (structure, (read() resets the object first, the mandatory check is a plain disjunction of missing-member tests,\n   [(key, (mandatory on reading, must be a non-empty vector, a repeated key accumulates, how the value is read))])) *)\n"
+    t += "Definition gen_readers : list (string * (bool * bool * list (Z * (bool * bool * bool * string)))) := [\n"
+    t += ";\n".join('  ("%s", (%s, %s, [%s]))' % (n, b(rs), b(po), "; ".join('((%d)%%Z, (%s, %s, %s, "%s"))' % (k, b(m), b(ne), b(ac), kd) for k, _, m, ne, ac, kd in rows)) for n, rs, rows, po in res)
+    t += "].\n"
+    with ThreadPoolExecutor(max_workers=8) as ex:
+        wres = list(ex.map(lambda r: analyse_writer(src, r[0], r[1], r[2]), WRITERS))
+    t += "(* the write() methods: (structure, [(key enumerator, its enumeration, written always | opt (iff the optional holds a value) |\n   nonempty (iff the vector is not empty), how the value is written)]) in the order the code writes the members *)\n"
+    t += "Definition gen_writers : list (string * list (string * (string * string * string))) := [\n"
+    t += ";\n".join('  ("%s", [%s])' % (n, "; ".join('("%s", ("%s", "%s", "%s"))' % (nm, en, g, kd) for nm, en, g, kd in rows)) for n, rows in wres)
     t += "].\n"
     with open(out_path, "w") as f: f.write(t)
     return res
 
+if __name__ == "__main__" and len(sys.argv) > 3 and sys.argv[3] == "writers":
+    for f, st, q in WRITERS:
+        try: print(analyse_writer(sys.argv[1], f, st, q))
+        except Exception as e: print(st, "FAILED", e)
+    sys.exit(0)
 if __name__ == "__main__":
-    for n, rs, rows in generate(sys.argv[1], sys.argv[2]) or []:
-        print(n, "resets" if rs else "NO-RESET", [(k, nm, "M" if m else "", "NE" if ne else "", "ACC" if ac else "") for k, nm, m, ne, ac in rows])
+    for n, rs, rows, po in generate(sys.argv[1], sys.argv[2]) or []:
+        print(n, "resets" if rs else "NO-RESET", "or" if po else "NOT-A-PLAIN-DISJUNCTION", [(k, nm, "M" if m else "", "NE" if ne else "", "ACC" if ac else "", kd) for k, nm, m, ne, ac, kd in rows])
